@@ -178,7 +178,7 @@ func init() {
 	ops["mf"] = func(a []string) string { // mf <variant> <f r o m key len(ignored)> <newmask> <payload>
 		h := parseHdr(a[1:7])
 		p := unhx(a[8])
-		h.Length = int64(len(p))
+		// h.Length is what the caller wrote there: usually len(p), but a frame literal may leave it 0 or stale
 		caller := append([]byte(nil), p...)
 		f := ws.Frame{Header: h, Payload: caller}
 		var g ws.Frame
@@ -265,6 +265,10 @@ func genC02(tier string, r *rng) {
 			run(fmt.Sprintf("rst cr %s %s %s %s %d", keys[r.intn(4)], hx(h), keys[r.intn(4)], hx(r.bytes(1+r.intn(20))), 1+r.intn(4)))
 		}
 	}
+	// single writes above the byte pool's largest class (65536), not a multiple of it, then more writes (offset carries on)
+	for _, n := range []int{65536, 65537, 70001, 131072, 131075} {
+		run(fmt.Sprintf("cwr %s - %s,%s", keys[n%4], hx(r.bytes(n)), hx(r.bytes(5))))
+	}
 	// frame helpers
 	variants := []string{"maskWith", "maskInPlaceWith", "mask", "maskInPlace", "unmask", "unmaskInPlace"}
 	for _, v := range variants {
@@ -272,7 +276,15 @@ func genC02(tier string, r *rng) {
 			for _, key := range keys {
 				h := ws.Header{Fin: r.bool(), Rsv: byte(r.intn(8)), OpCode: ws.OpCode(r.intn(16)), Masked: strings.HasPrefix(v, "unmask") || r.bool()}
 				copy(h.Mask[:], unhx(key))
+				h.Length = int64(n)
 				run(fmt.Sprintf("mf %s %s %s %s", v, hdrArgs(h), keys[r.intn(4)], hx(r.bytes(n))))
+				// Header.Length not in step with the payload (left 0, shorter, longer): the helpers work on the payload
+				if n == 9 || n == 40 {
+					for _, l := range []int64{0, int64(n) - 3, int64(n) + 5} {
+						h.Length = l
+						run(fmt.Sprintf("mf %s %s %s %s", v, hdrArgs(h), keys[r.intn(4)], hx(r.bytes(n))))
+					}
+				}
 			}
 		}
 	}
